@@ -84,6 +84,9 @@ func floatLit(f float64) string {
 type Node struct {
 	K      string
 	Parent int
+	// Extra: a parameterisation that only differs in an alignment/unit constant; it is used alone,
+	// in all chains of length 2 and in forks, but not in the product of length-3 chains.
+	Extra bool
 	// Bare: no log() sink under this node, its children read its output edge directly
 	// (a sink re-buffers batches and thereby restores the size hint the node set).
 	Bare bool
